@@ -18,7 +18,9 @@ from pyharness import Family, Lcx, main
 
 TRANSFORMS = [dict(), dict(perm_comp=True), dict(rev_vars=True), dict(rev_eqs=True), dict(perm_comp=True, rev_vars=True, rev_eqs=True),
               dict(rename=1), dict(rename=2), dict(rename=3), dict(rename=4), dict(rename=1, rev_eqs=True, perm_comp=True),
-              dict(init_on_twin=True), dict(init_on_twin=True, perm_comp=True, rev_eqs=True)]
+              dict(init_on_twin=True), dict(init_on_twin=True, perm_comp=True, rev_eqs=True),
+              dict(pad=1), dict(pad=2, rev_eqs=True)]
+PAD_ROLES = {'zpk': 'constant', 'zpc': 'computed_constant', 'zpt': 'algebraic'}
 
 
 def tname(t):
@@ -41,7 +43,7 @@ def wellformed(res, L, kinds, reads):
         if cls in seen:
             out.append(('wellformed:class-appears-twice', {'class': str(cls), 'entries': [seen[cls], e]}))
         seen[cls] = e
-    expected = set(range(L.n)) | ({'t'} if L.has_state else set())
+    expected = set(range(L.n)) | ({'t'} if L.has_state else set()) | (({'zpk', 'zpc'} | ({'zpt'} if L.has_state else set())) if L.pad else set())
     for cls in expected - set(seen):
         out.append(('wellformed:class-missing', {'class': str(cls)}))
     for arr in ('states', 'variables'):
@@ -238,6 +240,8 @@ def families(opts):
         for t in TRANSFORMS:
             if len(set(place)) == 1 and (t.get('perm_comp') and len(t) == 1 or t.get('rename') in (2, 3, 4) or t.get('init_on_twin')):
                 continue  # no second component / no twins: the transformation is the identity
+            if t.get('pad') and not (r.opts.get('pad') == '1' or 'G' in kinds or 'C' in kinds):
+                continue  # padding: everywhere in the quick tier; in the thorough tier on the graphs with guessed unknowns / coupled systems
             L = D.Layout(kinds, reads, place, **t)
             job = {'id': ci, 'doc': L.render(), 'code': not t, 'ast': False}
             if not t:
@@ -273,6 +277,10 @@ def families(opts):
                     got[L.class_of(e['comp'], e['var'])] = e['type']
             if res.get('voi'):
                 got[L.class_of(res['voi']['comp'], res['voi']['var'])] = res['voi']['type']
+            for pcls, prole in PAD_ROLES.items():
+                if pcls in got and got[pcls] != prole:
+                    rep('truth:role:unrelated-%s-classified-as-%s' % (prole, got[pcls]), {}, t)
+            got = {k: v for k, v in got.items() if k not in PAD_ROLES}   # what the others are must not depend on the padding
             for i in range(L.n):
                 if got.get(i) not in roles[i]:
                     rep('truth:role:%s(%s)-classified-as-%s' % (kinds[i], '|'.join(sorted(roles[i])), got.get(i)), {'var': i}, t)
